@@ -236,7 +236,13 @@ func stepFails(c Case) bool { return c.N <= 12 }
 func genCNF(t *rapid.T) Case {
 	var c Case
 	c.Front = "cnf"
-	switch rapid.IntRange(0, 3).Draw(t, "family") {
+	switch rapid.IntRange(0, 4).Draw(t, "family") {
+	case 4:
+		c.N = gen.Uniform(t, 3, 10, "n")
+		c.Clauses, _ = gen.CliqueRich(t, c.N)
+		c.Family = "clique-rich"
+		c.Detect = !gen.Chance(t, 1, 5, "noDetect")
+		return c
 	case 0:
 		c.N, c.Clauses = gen.FormulaSmall(t)
 		c.Family = "small"
@@ -317,7 +323,7 @@ func init() {
 	tail := "; each problem is solved/optimised with CuttingPlanes off and on; the verif hook hands every constraint learned by the cutting-planes analysis to the harness, which evaluates it on all models of the original problem (n<=20); asserted: same verdict and optimum as without the strategy and as brute force, valid model, no panic, step watchdog (10^6 loop iterations; a failure for n<=12); non-trivial = >=1 constraint learned by the cutting-planes analysis"
 	vf.Register(
 		vf.Sub[Case]{Name: "cnf", Quick: 1500, Thorough: 25000, Gen: genCNF, Check: check, Floor: 0.3, StepLimitFails: stepFails,
-			Rule: "domain A, pure CNF: small formulas with odd clause shapes, parity/pigeonhole formulas, threshold 3-SAT n in 10..40; with/without prior DetectAtMostOne" + tail},
+			Rule: "domain A, pure CNF: small formulas with odd clause shapes, parity/pigeonhole formulas, threshold 3-SAT n in 10..40, clique-rich formulas (what DetectAtMostOne rewrites); with/without prior DetectAtMostOne" + tail},
 		vf.Sub[Case]{Name: "card", Quick: 5000, Thorough: 100000, Gen: genPB("card"), Check: check, Floor: 0.1, StepLimitFails: stepFails,
 			Rule: "domain B, cardinality problems via ParseCardConstrs: uniform, dense, pigeonhole with at-most-one constraints; optional cost function; with/without prior DetectAtMostOne" + tail},
 		vf.Sub[Case]{Name: "pb", Quick: 5000, Thorough: 100000, Gen: genPB("pb"), Check: check, Floor: 0.1, StepLimitFails: stepFails,
